@@ -329,8 +329,10 @@ func (e *Exec) mergeTwo(basePC []string, nPC, nAs int, A, B *State) (M *State, o
 			}
 		}
 	}
-	prevSink := e.nameSink
+	prevSink, prevBase := e.nameSink, e.mergeBase
 	e.nameSink = &names
+	e.mergeBase = basePC
+	defer func() { e.mergeBase = prevBase }()
 	defer func() { e.nameSink = prevSink }()
 	ite := func(a, b Val) Val { return e.iteValM(cA, a, b, A, B, M) }
 	// registers of the top frame (lower frames cannot be written from inside the region)
@@ -353,7 +355,7 @@ func (e *Exec) mergeTwo(basePC []string, nPC, nAs int, A, B *State) (M *State, o
 			live = cfgOf(ta.Fn).usedFrom[ta.Blk]
 		}
 		if live[k] {
-			mfail("live register differs")
+			mfail("live register differs: " + trunc(fmt.Sprintf("%T/%T %s", va, vb, k.Type()), 70))
 		}
 	}
 	// heap
@@ -534,10 +536,49 @@ func (e *Exec) iteValM(c string, a, b Val, A, B, M *State) Val {
 				}
 				return y
 			}
-			mfail("havocked slices differ")
 		}
-		if x.Len != y.Len {
-			mfail("slices of different length")
+		if x.SymLen != "" || y.SymLen != "" || x.Len != y.Len {
+			// different shapes: a slice with a symbolic length ite(c, lenA, lenB) over an array of the longer length
+			ea, eb := e.sliceElemsRaw(A, x), e.sliceElemsRaw(B, y)
+			n := len(ea)
+			if len(eb) > n {
+				n = len(eb)
+			}
+			if n > 8 {
+				mfail("slices of different shape (long)")
+			}
+			if e.nameSink == nil {
+				mfail("slices of different shape")
+			}
+			lenT := func(sl SliceV) string {
+				if sl.SymLen != "" {
+					return sl.SymLen
+				}
+				return fmt.Sprint(sl.Len)
+			}
+			if n == 0 {
+				return SliceV{}
+			}
+			el := make([]Val, n)
+			for i := range el {
+				switch {
+				case i < len(ea) && i < len(eb):
+					if valIdentical(ea[i], eb[i]) {
+						el[i] = ea[i]
+					} else {
+						el[i] = e.iteValM(c, ea[i], eb[i], A, B, M)
+					}
+				case i < len(ea):
+					el[i] = ea[i]
+				default:
+					el[i] = eb[i]
+				}
+			}
+			ns := e.newSlice(M, el)
+			ln := e.sol.fresh("mlen", false)
+			*e.nameSink = append(*e.nameSink, "#name#(= "+ln+" "+tIte(c, lenT(x), lenT(y))+")", fmt.Sprintf("(and (>= %s 0) (<= %s %d))", ln, ln, n))
+			ns.SymLen = ln
+			return ns
 		}
 		if x.Len == 0 {
 			return SliceV{}
@@ -633,7 +674,7 @@ func (e *Exec) iteIface(c string, x, y IfaceV, A, B, M *State) Val {
 	if nilX == "true" && nilY == "true" {
 		return IfaceV{}
 	}
-	nilM := tIte(c, nilX, nilY)
+	nilM := e.mkIte(c, nilX, nilY, "Bool")
 	switch {
 	case nilX == "true":
 		return IfaceV{T: y.T, V: y.V, NilIf: nilM}
@@ -754,7 +795,10 @@ func (e *Exec) mergeEnv(M, A, B *State, cA, cB string) {
 					switch nv := en.Val.(type) {
 					case MarshaledV:
 						if nv.Lazy != nil {
-							mfail("lazy value written back")
+							if nv.Lazy.Mat == nil {
+								mfail("lazy value written back")
+							}
+							nv = MarshaledV{T: nv.Lazy.T, V: nv.Lazy.Mat}
 						}
 						cur := e.unmarshalGet(M, g, nv.T)
 						if arm.st == A {
@@ -856,4 +900,19 @@ func (e *Exec) currentVal(M *State, g GetResult) Val {
 	}
 	mfail("current value of a deleted key has no known type")
 	return nil
+}
+
+// armImplies: under the base path condition and the arm condition c, does fact hold?
+func (e *Exec) armImplies(c, fact string) bool {
+	pc := append(append([]string{}, e.mergeBase...), c)
+	return e.sol.check(pc, tNot(fact)) == "unsat"
+}
+
+// sliceElemsRaw: the backing elements of a slice up to its maximal length (for havocked slices: the bound L)
+func (e *Exec) sliceElemsRaw(s *State, sl SliceV) []Val {
+	if sl.ID == 0 {
+		return nil
+	}
+	arr := e.heapGet(s, sl.ID).(ArrV)
+	return arr.E[sl.Off : sl.Off+sl.Len]
 }
